@@ -334,7 +334,8 @@ class AstToDjangoQVisitor(visitor.NodeVisitor):
             # If ALL items in the collection must match, we invert the condition and use NOT EXISTS():
             if subquery_filter:
                 subquery = subquery.filter(~subquery_filter)
-            return Exists(subquery, negated=True)
+            # NOTE: `Exists(..., negated=True)` is silently ignored by Django >= 3.0
+            return ~Exists(subquery)
 
         else:
             raise NotImplementedError()
